@@ -42,8 +42,9 @@ def run_variant(prop, repo):
     viol, soft = core.split_restructured(ctx, viol)
     if code == 3 and not viol:
         return "undecided", "; ".join(msgs)[:300]
-    if soft and not viol:
-        return "undecided", "; ".join(f"[{r.rule}] {r.key}: {why}" for r, why in soft)[:300]
+    und = [r for r in ctx.results if r.status == "undecided"]
+    if (soft or und) and not viol:
+        return "undecided", "; ".join([f"[{r.rule}] {r.key}: {why}" for r, why in soft] + [f"[{r.rule}] {r.key}: {r.fact}" for r in und])[:300]
     if viol:
         return "violation", "; ".join(f"[{r.rule}] {r.key}" for r in viol)[:400]
     return "clean", ""
